@@ -474,7 +474,8 @@ CLAIMED = {
                 "(C18_shex_calls_are_run_shexc, C18_threshold_honoured); every profile_graph call is "
                 "run_profile_json of its own arguments, file sink = string sink "
                 "(C18_profile_calls_are_run_profile_json, C18_profile_file_eq_string).  Tied to /repo by predicting "
-                "every output of all 2379 call histories of length <= 3 on four configurations (incl. outputs beyond "
+                "every output of all 2379 call histories of length <= 3 on five configurations (one with "
+                "detect_minimal_iri and a class without an IRI stem; incl. outputs beyond "
                 "two 5000-line flushes) and pairs of Shapers sharing a dictionary, against fresh-Shaper references, "
                 "and by a profile channel (random graphs and configurations, profile_graph to string / file mixed "
                 "with shex_graph) compared byte for byte with the model.",
@@ -483,7 +484,8 @@ CLAIMED = {
                 "A call after a call that RAISED is outside the histories claimed: a Shaper whose first call raised "
                 "inside the profiler is left half-adapted (counted under monitored_not_judged; DESIGN.md section "
                 "10).  No known finding.  Fixed in /repo: C18-X-1b070df, C18-X-51cea95, C18-X-b8215b0, C18-X-15b8381 "
-                "(C18_former_witnesses).",
+                "(C18_former_witnesses), C18-X-7d16faf (under detect_minimal_iri a later call with another threshold "
+                "raised AttributeError when a shape has no IRI stem; regression: configuration 'stems').",
         "technique": "Gallina state machine over an abstract pipeline, instantiated with the concrete one; induction "
                      "over the history and over the line list; correspondence with the real Shaper on all histories "
                      "<= 3",
